@@ -182,7 +182,11 @@ func raceRegistry(h *raceH, p *prng, rounds int) {
 					switch q.intn(11) {
 					case 0, 1:
 						t := []eventlogger.NodeType{1, 2, 3, 3, 4}[q.intn(5)]
-						b.RegisterNode(id, &recNode{inst: int(q.next() % 100000), ty: t, beh: "pass", h: rh})
+						n := &recNode{inst: int(q.next() % 100000), ty: t, beh: "pass", h: rh}
+						if q.intn(2) == 0 { // a node whose Close takes a while: calls overlap a removal that already released the lock
+							n.slowClose = time.Duration(200+q.intn(1500)) * time.Microsecond
+						}
+						b.RegisterNode(id, n)
 					case 2:
 						b.RemoveNode(ctx, id)
 					case 3, 4:
